@@ -60,6 +60,16 @@ def theory(ctx, A, B):
     return cA, cB
 
 
+def step_lemmas(ctx, A, B, cA, cB, i0, i1, jj1, who):
+    """facts about the a-row the merge moves on to (cuts: each proved on its own, then used for the invariant)"""
+    k0, k1 = CL(trow(A, i0)), CL(trow(A, i1))
+    adv = i1 == i0 + 1
+    ctx.cut('%s (lemma): a is sorted: the next a-row is not below the current one' % who, z3.Implies(adv, z3.Not(LT(trow(A, i1), trow(A, i0)))))
+    ctx.cut('%s (lemma): a next a-row of a new value has no equal among the earlier a-rows' % who, z3.Implies(z3.And(adv, k1 != k0), cA(k1, i1) == 0))
+    ctx.cut('%s (lemma): ... and none among the consumed b-rows (they are all <= the previous a-row)' % who, z3.Implies(z3.And(adv, k1 != k0), cB(k1, jj1) == 0))
+    ctx.cut('%s (lemma): a next a-row of the same value has one more equal before it' % who, z3.Implies(z3.And(adv, k1 == k0), cA(k1, i1) == cA(k0, i0) + 1))
+
+
 def mn(x, y):
     return z3.If(x < y, x, y)
 
@@ -137,6 +147,9 @@ def make_complement(strict):
                 else:
                     ctx.oblige('itercomplement%s: an a-row passed over without being yielded fails the keep-predicate' % ('(strict)' if strict else ''),
                                z3.Implies(consumed, z3.Not(keep(i0))))
+                if not broke and not strict:
+                    b1 = ls.env.lookup('b')
+                    step_lemmas(ctx, A, B, cA, cB, i0, pa - 1, (B.n if b1 is None else pb - 1), 'itercomplement')
                 if broke:
                     ctx.oblige('itercomplement: the loop is left only when a has run out (every a-row has been judged)',
                                z3.And(pa == A.n, box['i0'] == A.n - 1))
@@ -227,6 +240,7 @@ def intersection_merge(h):
                 if not isinstance(z3.simplify(pa == box['pa0'] + 1), bool) and ctx.branch(pa == box['pa0'] + 1, 'a advanced without a yield'):
                     lemmas_no_more_b(i0, jj0)
                     ctx.oblige('iterintersection: an a-row passed over without being yielded fails occA < cntB', z3.Not(keep(i0)))
+            step_lemmas(ctx, A, B, cA, cB, i0, pa - 1, pb - 1, 'iterintersection')
 
         def judge_exit(env):
             """the step that ended the loop through StopIteration"""
